@@ -45,6 +45,7 @@ class Pass:
         s.cuts = [re.compile(c) for c in cuts]
         s.forbid = [re.compile(c) for c in forbid]; s.forbid_names = []
         s.zero = []; s.zero_names = []
+        s.redirect = []; s.redirect_names = []; s.extra_decls = []
         s.cut_names = []
         s.atomics = []     # (function, kind, order)
         s.fences = 0
@@ -160,6 +161,37 @@ class Pass:
                     out.append(re.sub(r'\s+personality .*\{$', ' {', ln)); out.append('  call void @vll_forbidden()'); out.append('  unreachable'); out.append('}')
                     while lines[i] != '}': i += 1
                     i += 1; fn = None; continue
+                rd = [(c, hk) for c, hk in s.redirect if c.search(fn.strip('@"'))]
+                if rd:
+                    # hook: the harness observes / replaces this function (same LLVM signature: extern "C" in the harness)
+                    hk = rd[0][1]; s.redirect_names.append(fn.strip('@"') + ' -> ' + hk)
+                    mh = re.search(r'(@"(?:[^"\\]|\\.)*"|@[-a-zA-Z$._0-9]+)\(', ln)
+                    st_ = mh.end(); dp = 1; k_ = st_
+                    while dp:
+                        dp += {'(': 1, ')': -1}.get(ln[k_], 0); k_ += 1
+                    params = ln[st_:k_ - 1]
+                    rty = re.match(r'define\s+(?:(?:linkonce_odr|weak_odr|internal|dso_local|hidden|noundef|nonnull|zeroext|signext|align \d+|dereferenceable\(\d+\)|dereferenceable_or_null\(\d+\)|noalias)\s+)*(.+?)\s+@', ln).group(1)
+                    # split params at top level
+                    ps = []; cur_ = ''; dp = 0
+                    for ch in params:
+                        if ch in '(<[{': dp += 1
+                        if ch in ')>]}': dp -= 1
+                        if ch == ',' and dp == 0: ps.append(cur_.strip()); cur_ = ''
+                        else: cur_ += ch
+                    if cur_.strip(): ps.append(cur_.strip())
+                    args = []
+                    for p_ in ps:
+                        nm = re.search(r'(%"(?:[^"\\]|\\.)*"|%[-a-zA-Z$._0-9]+)$', p_).group(1)
+                        ty = re.sub(r'\s+(noundef|nonnull|nocapture|readonly|readnone|writeonly|noalias|signext|zeroext|returned|align \d+|dereferenceable\(\d+\)|dereferenceable_or_null\(\d+\))\b', '', ' ' + p_[:p_.rindex(nm)]).strip()
+                        args.append((ty, nm))
+                    out.append(re.sub(r'\s+personality .*\{$', ' {', ln))
+                    call = 'call %s @%s(%s)' % (rty, hk, ', '.join('%s %s' % a for a in args))
+                    if rty == 'void': out.append('  ' + call); out.append('  ret void')
+                    else: out.append('  %vll.hook.r = ' + call); out.append('  ret %s %%vll.hook.r' % rty)
+                    out.append('}')
+                    if not re.search(r'^(declare|define) [^\n]*@' + re.escape(hk) + r'\(', text, re.M): s.extra_decls.append('declare %s @%s(%s)' % (rty, hk, ', '.join(a[0] for a in args)))
+                    while lines[i] != '}': i += 1
+                    i += 1; fn = None; continue
                 if any(c.search(fn.strip('@"')) for c in s.zero):
                     # stub: empty body returning a zero value (formatting / rendering that is not the subject of the property)
                     s.zero_names.append(fn.strip('@"'))
@@ -180,7 +212,7 @@ class Pass:
             else:
                 out.append(ln)
             i += 1
-        res = '\n'.join(out)
+        res = '\n'.join(out + sorted(set(s.extra_decls)))
         for d in DECLS.strip().split('\n'):
             nm = re.search(r'@\w+', d).group()
             if not re.search(r'^(declare|define) [^\n]*' + re.escape(nm) + r'\(', res, re.M): res += '\n' + d
@@ -194,6 +226,7 @@ if __name__ == '__main__':
     info = [a[2:] for a in sys.argv[3:] if a.startswith('-j')]
     p = Pass(cuts, forbid)
     p.zero = [re.compile(a[2:]) for a in sys.argv[3:] if a.startswith('-z')]
+    p.redirect = [(re.compile(a[2:].rsplit('=', 1)[0]), a[2:].rsplit('=', 1)[1]) for a in sys.argv[3:] if a.startswith('-r')]
     open(dst, 'w').write(p.run(open(src).read()))
     if info:
-        json.dump({'zero_stubs': p.zero_names, 'forbidden': p.forbid_names, 'cut': p.cut_names, 'atomics': p.atomics, 'fences': p.fences}, open(info[0], 'w'))
+        json.dump({'hooks': p.redirect_names, 'zero_stubs': p.zero_names, 'forbidden': p.forbid_names, 'cut': p.cut_names, 'atomics': p.atomics, 'fences': p.fences}, open(info[0], 'w'))
